@@ -1,10 +1,12 @@
-(* Correspondence for C24.  A case is a collection of members (indices into a shared universe) inserted at one time
-   point of a container (InstantaneousAction / DurativeAction / Problem) after a fixed history [c_pre]; the harness
-   runs EVERY order of the collection (or the listed orders) on the real classes, and records after every single
-   insertion whether it raised UPConflictingEffectsException and the bookkeeping attributes (_effects,
-   _fluents_assigned, _fluents_inc_dec, _simulated_effect(s)) of every watched time point.  [ok] recomputes the
-   same trace with the model and compares everything (observations travel as a digit stream packed into
-   63-bit integers, see [enc_case]). *)
+(* Correspondence for C24.  A case: a container (InstantaneousAction / DurativeAction / Problem) receives a history
+   [c_pre] (members with their time points), then the sequence [c_prefix] at time point [c_t], and then -- each one
+   separately, from the container the prefix left -- every member of [c_children].  The harness does this on the real
+   classes (every full sequence on a fresh object) and records after EVERY insertion whether it raised
+   UPConflictingEffectsException and the bookkeeping attributes (_effects, _fluents_assigned, _fluents_inc_dec,
+   _simulated_effect(s)) of every watched time point.  [ok] recomputes the same trace with the model and compares
+   everything (observations travel as a digit stream packed into 63-bit integers, see [enc_case]).
+   Running this for every prefix of length 3 over a universe and all its members as children covers every insertion
+   order of every multiset of at most 4 members of that universe. *)
 From Coq Require Import List ZArith NArith QArith Bool Uint63.
 Import ListNotations.
 Require Import UPV.Model.Conflicts.
@@ -22,34 +24,16 @@ Record snap := Snap {
 Record case := Case {
   c_kind : ckind;
   c_universe : list item;
-  c_pre : list (N * nat);          (* history before the collection: (time point, member index) *)
-  c_t : N;                         (* time point of the collection *)
-  c_items : list nat;              (* the collection *)
-  c_orders : list (list nat);      (* [] = all DISTINCT permutations of c_items, in the order of first occurrence in
-                                      the index-lexicographic enumeration (itertools.permutations); otherwise
-                                      exactly these insertion orders *)
+  c_pre : list (N * nat);          (* history before: (time point, member index) *)
+  c_t : N;                         (* time point of the prefix and the children *)
+  c_prefix : list nat;             (* inserted one after the other *)
+  c_children : list nat;           (* each inserted separately after the prefix *)
   c_watch : list N;                (* time points whose bookkeeping is recorded *)
   c_values : list value;           (* table of the value expressions that occur (a value is sent as its index) *)
-  c_obs : list int                 (* [enc_case] of everything observed on the implementation: for the prefix
-                                      history and then for every order, per insertion: raised? and the change of
-                                      the bookkeeping of every watched time point *)
+  c_obs : list int                 (* [enc_case] of everything observed on the implementation: per insertion (history,
+                                      prefix, every child) raised? and the change of the bookkeeping of every watched
+                                      time point *)
 }.
-
-Fixpoint selects {A} (l : list A) : list (A * list A) :=
-  match l with
-  | [] => []
-  | x :: l' => (x, l') :: map (fun p => (fst p, x :: snd p)) (selects l')
-  end.
-
-Fixpoint perms_fuel {A} (n : nat) (l : list A) : list (list A) :=
-  match n with
-  | O => [[]]
-  | S n' => match l with
-            | [] => [[]]
-            | _ => flat_map (fun p => map (cons (fst p)) (perms_fuel n' (snd p))) (selects l)
-            end
-  end.
-Definition perms {A} (l : list A) : list (list A) := perms_fuel (length l) l.
 
 Definition snap_of (s : tp) : snap :=
   Snap (map e_tag (effects s)) (assigned s) (incdec s) (sim s).
@@ -78,58 +62,51 @@ Definition snap_eqb (a b : snap) : bool :=
 
 Definition nth_item (u : list item) (i : nat) : item := nth i u (ISim []).
 
-(* InstantaneousAction: the one-time-point model *)
-Fixpoint trace_inst (s : tp) (l : list item) : list (bool * list snap) :=
-  match l with
-  | [] => []
-  | i :: l' => let (s', r) := add_item s i in (r, [snap_of s']) :: trace_inst s' l'
-  end.
-
-(* DurativeAction / Problem: the timed model *)
-Fixpoint trace_timed (watch : list N) (m : timed) (l : list (N * item)) : list (bool * list snap) :=
-  match l with
-  | [] => []
-  | ti :: l' => let (m', r) := tadd_item m ti in
-                (r, map (fun t => snap_of (tget t m')) watch) :: trace_timed watch m' l'
-  end.
-
 Definition is_sim (i : item) : bool := match i with ISim _ => true | IEff _ => false end.
 
-Definition dedup_first (ps : list (list nat)) : list (list nat) :=
-  fold_left (fun acc o => if existsb (list_eqb Nat.eqb o) acc then acc else acc ++ [o]) ps [].
+(* the container as the model sees it *)
+Inductive cont := KInst (s : tp) | KTimed (m : timed).
 
-Definition orders_of (c : case) : list (list nat) :=
-  match c_orders c with [] => dedup_first (perms (c_items c)) | os => os end.
+Definition cont_empty (k : ckind) : cont := match k with CInst => KInst tp_empty | _ => KTimed [] end.
 
-(* the prefix history, from the empty container *)
-Definition model_pre (c : case) : list (bool * list snap) :=
-  let u := c_universe c in
-  match c_kind c with
-  | CInst => trace_inst tp_empty (map (fun p => nth_item u (snd p)) (c_pre c))
-  | _ => trace_timed (c_watch c) [] (map (fun p => (fst p, nth_item u (snd p))) (c_pre c))
+Definition cont_add (c : cont) (t : N) (i : item) : cont * bool :=
+  match c with
+  | KInst s => let (s', r) := add_item s i in (KInst s', r)
+  | KTimed m => let (m', r) := tadd_item m (t, i) in (KTimed m', r)
   end.
 
-(* every insertion order of the collection, each from the container left by the prefix history *)
-Definition model_obs (c : case) : list (list (bool * list snap)) :=
-  let u := c_universe c in
-  match c_kind c with
-  | CInst =>
-      let s0 := run tp_empty (map (fun p => nth_item u (snd p)) (c_pre c)) in
-      map (fun o => trace_inst s0 (map (nth_item u) o)) (orders_of c)
-  | _ =>
-      let m0 := trun [] (map (fun p => (fst p, nth_item u (snd p))) (c_pre c)) in
-      map (fun o => trace_timed (c_watch c) m0 (map (fun i => (c_t c, nth_item u i)) o)) (orders_of c)
+Definition cont_snaps (watch : list N) (c : cont) : list snap :=
+  match c with
+  | KInst s => [snap_of s]
+  | KTimed m => map (fun t => snap_of (tget t m)) watch
   end.
+
+Fixpoint trace (watch : list N) (c : cont) (l : list (N * item)) : list (bool * list snap) * cont :=
+  match l with
+  | [] => ([], c)
+  | (t, i) :: l' =>
+      let (c', r) := cont_add c t i in
+      let (tr, c'') := trace watch c' l' in
+      ((r, cont_snaps watch c') :: tr, c'')
+  end.
+
+(* (history trace, prefix trace, one step per child) *)
+Definition model_obs (c : case) : list (bool * list snap) * list (bool * list snap) * list (bool * list snap) :=
+  let u := c_universe c in
+  let w := c_watch c in
+  let (tr_pre, k0) := trace w (cont_empty (c_kind c)) (map (fun p => (fst p, nth_item u (snd p))) (c_pre c)) in
+  let (tr_prefix, k1) := trace w k0 (map (fun i => (c_t c, nth_item u i)) (c_prefix c)) in
+  (tr_pre, tr_prefix, flat_map (fun i => fst (trace w k1 [(c_t c, nth_item u i)])) (c_children c)).
 
 Definition watch_count (c : case) : nat := match c_kind c with CInst => 1 | _ => length (c_watch c) end.
 
 (* a Problem has no simulated effects: such a case is malformed *)
 Definition well_formed (c : case) : bool :=
   match c_kind c with
-  | CProb => negb (existsb (fun i => is_sim (nth_item (c_universe c) i)) (c_items c ++ map snd (c_pre c)))
+  | CProb => negb (existsb (fun i => is_sim (nth_item (c_universe c) i)) (c_prefix c ++ c_children c ++ map snd (c_pre c)))
   | _ => true
   end
-  && forallb (fun i => Nat.ltb i (length (c_universe c))) (c_items c ++ map snd (c_pre c) ++ concat (c_orders c)).
+  && forallb (fun i => Nat.ltb i (length (c_universe c))) (c_prefix c ++ c_children c ++ map snd (c_pre c)).
 
 (* ---- compact transport of observations.
    Every insertion is sent as digits < 64: the raised flag, then for every watched time point the CHANGE of its
@@ -138,7 +115,7 @@ Definition well_formed (c : case) : bool :=
    simulated effect -- each 0 when that attribute did not change).  A change of any other shape is the invalid
    digit 64 on this side (then [ok] is false) and reported directly by the harness on the implementation side.
    Both traces start from the empty container, so equal digit streams mean equal snapshots after every insertion.
-   The stream of the whole case (prefix history, then every order) is cut into groups of 10 digits, each group is
+   The stream of the whole case (history, prefix, then every child) is cut into groups of 10 digits, each group is
    read in base 64 behind a leading digit 1 and sent as a 63-bit integer; every step has a self-delimiting layout
    and the number of steps is fixed by the case, so equal integer lists <=> equal streams. *)
 Definition base : N := 64.
@@ -208,9 +185,11 @@ Definition last_snaps (start : list snap) (steps : list (bool * list snap)) : li
 Definition case_digits (c : case) : list N :=
   let tbl := c_values c in
   let e0 := empty_snaps (watch_count c) in
-  let pre := model_pre c in
-  let s0 := last_snaps e0 pre in
-  steps_digits tbl e0 pre ++ flat_map (steps_digits tbl s0) (model_obs c).
+  let '(tr_pre, tr_prefix, tr_children) := model_obs c in
+  let s0 := last_snaps e0 tr_pre in
+  let s1 := last_snaps s0 tr_prefix in
+  steps_digits tbl e0 tr_pre ++ steps_digits tbl s0 tr_prefix
+  ++ flat_map (fun st => steps_digits tbl s1 [st]) tr_children.
 
 Definition digits_ok (ds : list N) : bool := forallb (fun d => (d <? base)%N) ds.
 
